@@ -447,6 +447,15 @@ pub open spec fn ia_mul_fits(x: Bitvector, y: Bitvector) -> bool {
     smin(x.w@) <= x.s() * y.s() <= smax(x.w@)
 }
 
+/// the wrapped product is a well-formed value of the operands' width
+pub proof fn lemma_ia_mul_wf()
+    ensures forall|x: Bitvector, y: Bitvector| x.wf() && y.wf() ==> (#[trigger] bv_mul(x, y)).wf() && bv_mul(x, y).w@ == x.w@,
+{
+    assert forall|x: Bitvector, y: Bitvector| x.wf() && y.wf() implies (#[trigger] bv_mul(x, y)).wf() && bv_mul(x, y).w@ == x.w@ by {
+        lemma_trunc_range(x.w@, (x.u@ * y.u@) as int);
+    }
+}
+
 /// the whole result of signed_mul
 pub open spec fn ia_mul_exact(a: Interval, b: Interval, r: Interval) -> bool {
     if a.w() <= 64 && ia_mul_fits(a.start, b.start) && ia_mul_fits(a.start, b.end) && ia_mul_fits(a.end, b.start) && ia_mul_fits(a.end, b.end) {
@@ -456,6 +465,44 @@ pub open spec fn ia_mul_exact(a: Interval, b: Interval, r: Interval) -> bool {
     }
 }
 
+/// the bounds of the result are the minimum / maximum of the four corner products
+pub proof fn lemma_ia_mul_corner_values(a: Interval, b: Interval)
+    requires a.inv(), b.inv(), a.w() == b.w(), a.w() >= 2,
+        ia_mul_fits(a.start, b.start), ia_mul_fits(a.start, b.end), ia_mul_fits(a.end, b.start), ia_mul_fits(a.end, b.end),
+    ensures ({
+        let r = ia_mul_result(a, b);
+        let (a0, a1, b0, b1) = (a.start.s(), a.end.s(), b.start.s(), b.end.s());
+        &&& r.start.wf() && r.end.wf() && r.start.w@ == a.w() && r.end.w@ == a.w()
+        &&& r.start.s() == ia_min2(a0 * b0, ia_min2(a0 * b1, ia_min2(a1 * b0, a1 * b1)))
+        &&& r.end.s() == ia_max2(a0 * b0, ia_max2(a0 * b1, ia_max2(a1 * b0, a1 * b1)))
+        &&& smin(a.w()) <= r.start.s() && r.end.s() <= smax(a.w())
+        &&& (r.stride == 0) == (r.start.s() == r.end.s() || spec_gcd(a.stride as nat, b.stride as nat) == 0)
+        &&& r.stride != 0 ==> r.stride as nat == spec_gcd(a.stride as nat, b.stride as nat)
+    }),
+{
+    let r = ia_mul_result(a, b);
+    lemma_mul_flag_facts(a.start, b.start); lemma_mul_flag_facts(a.start, b.end);
+    lemma_mul_flag_facts(a.end, b.start); lemma_mul_flag_facts(a.end, b.end);
+    lemma_ia_eq_iff_s(r.start, r.end);
+    lemma_gcd_bound(a.stride as nat, b.stride as nat);
+}
+
+/// all products of members lie in the residue class of the corner products modulo a common divisor of the strides
+pub proof fn lemma_ia_mul_stride(g: int, a0: int, a1: int, b0: int, b1: int, x: int, y: int)
+    requires g > 0, divides(g, x - a0), divides(g, y - b0), divides(g, a1 - a0), divides(g, b1 - b0)
+    ensures divides(g, x * y - a0 * b0), divides(g, x * y - a0 * b1), divides(g, x * y - a1 * b0), divides(g, x * y - a1 * b1),
+{
+    lemma_ia_divides_self(g);
+    lemma_ia_mul_residue(g, a0, b0, x, y);
+    lemma_ia_mul_residue(g, a0, b0, a0, b1);
+    lemma_ia_mul_residue(g, a0, b0, a1, b0);
+    lemma_ia_mul_residue(g, a0, b0, a1, b1);
+    let p = x * y;
+    lemma_divides_add(g, p - a0 * b0, a0 * b1 - a0 * b0);
+    lemma_divides_add(g, p - a0 * b0, a1 * b0 - a0 * b0);
+    lemma_divides_add(g, p - a0 * b0, a1 * b1 - a0 * b0);
+}
+
 /// every product of members is a member of the result (no corner product overflows)
 pub proof fn lemma_ia_interval_mul_gamma(a: Interval, b: Interval, x: Bitvector, y: Bitvector)
     requires a.inv(), b.inv(), a.w() == b.w(), a.w() >= 2,
@@ -463,36 +510,24 @@ pub proof fn lemma_ia_interval_mul_gamma(a: Interval, b: Interval, x: Bitvector,
         a.gamma(x), b.gamma(y),
     ensures ia_mul_result(a, b).gamma(bv_mul(x, y)), bv_mul(x, y).s() == x.s() * y.s(),
 {
-    let w = a.w();
     let r = ia_mul_result(a, b);
     let (a0, a1, b0, b1) = (a.start.s(), a.end.s(), b.start.s(), b.end.s());
     let p = x.s() * y.s();
-    lemma_mul_flag_facts(a.start, b.start); lemma_mul_flag_facts(a.start, b.end);
-    lemma_mul_flag_facts(a.end, b.start); lemma_mul_flag_facts(a.end, b.end);
+    lemma_ia_mul_corner_values(a, b);
     lemma_ia_mul_corners(a0, a1, b0, b1, x.s(), y.s());
-    assert(r.start.s() == ia_min2(a0 * b0, ia_min2(a0 * b1, ia_min2(a1 * b0, a1 * b1))));
-    assert(r.end.s() == ia_max2(a0 * b0, ia_max2(a0 * b1, ia_max2(a1 * b0, a1 * b1))));
     lemma_mul_flag_facts(x, y);
     assert(bv_mul(x, y).s() == p);
-    lemma_ia_eq_iff_s(r.start, r.end);
-    let g = spec_gcd(a.stride as nat, b.stride as nat) as int;
-    lemma_gcd(a.stride as nat, b.stride as nat);
-    lemma_gcd_bound(a.stride as nat, b.stride as nat);
-    if g > 0 {
-        lemma_ia_divides_self(g);
+    if r.stride != 0 {
+        let g = r.stride as int;
+        lemma_gcd(a.stride as nat, b.stride as nat);
         lemma_ia_on_stride_weaken(a.stride, g, x.s() - a0);
         lemma_ia_on_stride_weaken(b.stride, g, y.s() - b0);
         lemma_ia_on_stride_weaken(a.stride, g, a1 - a0);
         lemma_ia_on_stride_weaken(b.stride, g, b1 - b0);
-        lemma_ia_mul_residue(g, a0, b0, x.s(), y.s());
-        lemma_ia_mul_residue(g, a0, b0, a0, b0);
-        lemma_ia_mul_residue(g, a0, b0, a0, b1);
-        lemma_ia_mul_residue(g, a0, b0, a1, b0);
-        lemma_ia_mul_residue(g, a0, b0, a1, b1);
-        lemma_divides_add(g, p - a0 * b0, a0 * b0 - a0 * b0);
-        lemma_divides_add(g, p - a0 * b0, a0 * b1 - a0 * b0);
-        lemma_divides_add(g, p - a0 * b0, a1 * b0 - a0 * b0);
-        lemma_divides_add(g, p - a0 * b0, a1 * b1 - a0 * b0);
+        lemma_ia_mul_stride(g, a0, a1, b0, b1, x.s(), y.s());
+    } else if r.start.s() != r.end.s() {
+        // both strides 0: x, y are the only members
+        lemma_gcd(a.stride as nat, b.stride as nat);
     }
 }
 
